@@ -207,6 +207,7 @@ class BodyRun:
     facts: list = None
     call_obl: list = None
     exp_args: list = None
+    null_selects: list = None
 
 
 def run_body(c: Contract, reg: Registry, extra_overrides=None) -> BodyRun:
@@ -252,6 +253,7 @@ def run_body(c: Contract, reg: Registry, extra_overrides=None) -> BodyRun:
     run.facts = list(Ctx.facts)
     run.call_obl = list(Ctx.call_obl)
     run.exp_args = list(Ctx.exp_args)
+    run.null_selects = list(Ctx.null_selects)
     return run
 
 
@@ -296,6 +298,9 @@ def body_obligations(run: BodyRun, strict=False, only=None):
                     continue
                 kind, cond, desc = run.defs[k]
                 obls.append((f"{c.short}:strict#{k}[{kind}]", allh, cond))
+        if strict and run.null_selects:
+            from .discharge import null_select_obligations
+            obls += null_select_obligations(c.short, allh, run.null_selects)
         # no overflow: every exponential evaluated by the body has an argument bounded above (exp(709.8) overflows float64 (88.7 float32);
         # the repository's own safeguard is save_exp's clip at 20
         seen_exp = set()
